@@ -116,10 +116,7 @@ Proof.
   replace (be 4 size ++ fourcc t ++ r) with ((be 4 size ++ fourcc t) ++ r) in H by (rewrite app_assoc; reflexivity).
   assert (L : len (be 4 size ++ fourcc t) = 8) by (unfold fourcc; rewrite len_app, !len_be; reflexivity).
   pose proof (At_rd _ _ _ _ H) as R. rewrite L in R. rewrite R.
-  rewrite L. replace (8 =? 0) with false by reflexivity.
-  assert (P : pad8 (be 4 size ++ fourcc t) = be 4 size ++ fourcc t).
-  { unfold pad8, fourcc. rewrite app_length, !be_length. cbn. apply app_nil_r. }
-  rewrite P.
+  rewrite L. replace (8 =? 0) with false by reflexivity. replace (8 <? 8) with false by reflexivity.
   assert (F : firstn 4 (be 4 size ++ fourcc t) = be 4 size).
   { apply firstn_app_exact, be_length. }
   assert (S : skipn 4 (be 4 size ++ fourcc t) = fourcc t).
@@ -427,7 +424,7 @@ Lemma read_super_S f depth buf pos :
     | Some (name, size, p1) =>
       if name =? 0 then Err EUnexpectedEof
       else if negb (name =? T_JUMB) then Err EInvalidJumbfHeader
-      else if U64 <=? pos + size then Panic
+      else if U64 <=? pos + size then Err EInvalidJumbBox
       else
         match read_header buf p1 with
         | None => Err EExpectedJumdError
